@@ -217,6 +217,10 @@ func (p SignatureProof) MergeSparse(s gcrypto.SparseSignatureProof) gcrypto.Sign
 	}
 
 	countBefore := p.sigTree.SigBits.Count()
+	bitsBefore := p.sigTree.SigBits.Clone()
+	// A key ID may name an aggregation of several keys,
+	// so collect what the other proof offers in an empty tree over the same keys.
+	offered := p.sigTree.Derive()
 
 	for _, ss := range s.Signatures {
 		if len(ss.KeyID) != 2 {
@@ -247,18 +251,24 @@ func (p SignatureProof) MergeSparse(s gcrypto.SparseSignatureProof) gcrypto.Sign
 			if p.sigTree.SigBits.Count() > countBefore {
 				res.IncreasedSignatures = true
 			}
+			offered.AddSignature(id, *sig)
 		} else {
 			// We did have the signature; does it match?
 			sig := new(blst.P1Affine)
 			sig = sig.Uncompress(ss.Sig)
-			if !haveSig.Equals(sig) {
+			if sig == nil || !haveSig.Equals(sig) {
+				// Undecodable bytes uncompress to nil.
 				res.AllValidSignatures = false
+				continue
 			}
+			offered.AddSignature(id, *sig)
 		}
 	}
 
 	res.IncreasedSignatures = p.sigTree.SigBits.Count() > countBefore
-	// TODO: how to check WasStrictSuperset?
+	// The other proof was a strict superset if it offered a valid signature
+	// for every key we already had one for, and at least one more.
+	res.WasStrictSuperset = offered.SigBits.IsStrictSuperSet(bitsBefore)
 	return res
 }
 
